@@ -23,8 +23,9 @@ UseExternalVbusIndicator<<7, computed every cycle from the sampled control input
     add through `add_extra_register`) and carries a value the addressed register's inputs
     had at some cycle between the previous commit to that register and this commit (a link may latch the value when it
     requests the write and present the command much later);
-  * bounded convergence: 300 bus-free cycles after the last change / transmission / PHY activity the PHY registers 0x04
-    and 0x0A equal the requests, and nothing is written during the following 12 cycles;
+  * bounded convergence: within 300 bus-free cycles after the last change / transmission / PHY activity there are 12
+    consecutive cycles in which the PHY registers equal the requests and the link issues no command (redundant writes of a
+    correct value on the way are tolerated, endless rewriting is not);
   * bounded progress: a pending UTMI transmission gets a byte accepted at least every 150 cycles in which the PHY leaves
     the bus to the link; a pending register difference leads to a committed write within 150 cycles in which the PHY
     leaves the bus to the link and no transmission is pending;
@@ -32,11 +33,16 @@ UseExternalVbusIndicator<<7, computed every cycle from the sampled control input
   * the link commits no ULPI protocol irregularity (command withdrawn / changed before NXT, STP late or missing, ...).
 
 A case ends at the first failed convergence or dead-lock (the DUT state is then no longer comparable).
-Known findings on the unchanged tree are named by narrow classifiers (see findings/C24.md): a wrong value / foreign
-address / failed convergence is attributed to the "live address/data" defect only if at least two control changes
-fell into the same pending period (no other history can trigger it); a mutual block is attributed to the
-"write started while TXCMD pending" defect only if a transmission without accepted TXCMD and a register difference are
-both pending and the link drives nothing.
+Known findings on the unchanged tree are named by narrow classifiers (`classify`, see findings/C24.md); anything else keeps
+its generic mechanism name and fails the run:
+  * `regwrite_uses_live_address_and_data_after_request_changed`: only for a wrong value / a write to register 0x00 / registers
+    not converged, and only if at least two distinct control-change cycles lie in the same episode (since the last converged
+    checkpoint) -- with a single change per episode (patterns single, multi, abort_stage, tx_near, most under_dir) the
+    defect cannot be triggered, so those episodes judge every link without excuse;
+  * `regwrite_started_while_txcmd_pending`: only if in the same episode a register write became startable (control change,
+    two cycles after a commit with another difference queued, the cycle after a packet's STP, end of the start-up delay)
+    in a cycle t0 <= e <= a, where tx_valid rose at t0 and the PHY accepted that TXCMD at a, with a register difference
+    pending at e.  (A change one cycle *before* tx_valid is not covered: the unchanged tree handles it.)
 
 Not judged: transmit packet content and STP data (C23), the receive path (C22); op_mode is not changed while a
 transmission is pending (the TXCMD would legitimately change).
@@ -47,7 +53,7 @@ from rv.checks.c22 import make_ulpi, ResProxy, CTL_FIELDS, CTL_QUIET, function_c
 
 PROPERTY = "C24"
 CASES = {"quick": 480, "thorough": 7200}
-RULE = ("case = up to 14 episodes (single / multi / double / revert / under_dir / tx_coincide / traffic) of control-input "
+RULE = ("case = up to 14 episodes (single / multi / double / revert / under_dir / abort_stage / tx_near / tx_coincide / traffic) of control-input "
         "changes, transmissions and PHY DIR activity on one UTMITranslator + PHY register file, each followed by a bounded "
         "convergence check; non-trivial = >=1 write aborted by DIR or >=1 change with a write in flight, and >=3 converged "
         "episodes; distinct = hash of all changes, packets and PHY activity")
